@@ -11,6 +11,7 @@ import os
 import resource
 import struct
 import sys
+import threading
 
 if __name__ == "__main__":
     sys.path.insert(0, os.path.dirname(os.path.dirname(os.path.abspath(__file__))))
@@ -81,18 +82,31 @@ def raw_exec(exe, argv, envp, stdin_bytes, timeout=60):
             os._exit(127)
     os.close(r_in)
     os.close(w_out)
+
+    def kill():
+        try:
+            os.kill(pid, 9)          # an iterator that never ends, a start-up that hangs: reported as a crash
+        except OSError:
+            pass
+    dog = threading.Timer(timeout, kill)
+    dog.start()
     try:
-        os.write(w_in, stdin_bytes)
+        try:
+            os.write(w_in, stdin_bytes)
+        except OSError:
+            pass
+        finally:
+            os.close(w_in)
+        chunks = []
+        while True:
+            b = os.read(r_out, 1 << 20)
+            if not b:
+                break
+            chunks.append(b)
+        os.close(r_out)
+        _, st = os.waitpid(pid, 0)
     finally:
-        os.close(w_in)
-    chunks = []
-    while True:
-        b = os.read(r_out, 1 << 20)
-        if not b:
-            break
-        chunks.append(b)
-    os.close(r_out)
-    _, st = os.waitpid(pid, 0)
+        dog.cancel()
     return st, b"".join(chunks)
 
 
@@ -107,6 +121,8 @@ def run_case(exe, case):
         req.append("clock %d" % case["clock"])
     if case.get("reloc"):
         req.append("reloc")
+    for kind, ops in case.get("its", []):
+        req.append("it %s %s" % (kind, " ".join(ops)))
     st, out = raw_exec(exe, case["argv"], case["env"], ("\n".join(req) + "\n").encode())
     lines = out.decode("ascii", "replace").splitlines()
     rec = {"status": st, "lines": lines, "complete": bool(lines) and lines[-1] == "end"}
@@ -116,6 +132,8 @@ def run_case(exe, case):
             rec[w[0]] = w[1:]
         elif w[0] in ("args_os", "args"):
             rec[w[0]] = w[1:]
+        elif w[0] == "it":
+            rec.setdefault("it", []).append(w[1:])
         elif w[0] in ("var", "varu"):
             rec.setdefault(w[0], {})[w[1]] = " ".join(w[2:])
     return rec
@@ -447,6 +465,212 @@ def reloc_lines(rec):
     return line, impl, problems, stats
 
 
+# ------------------------------------------------------------------ the argument iterators as stateful objects
+
+# `it <os|args> <op>*`: one script of calls on ONE fresh iterator object (probe: run_script).
+#   n next()   N:k nth(k)   s:k by_ref().skip(k).next()   t:k by_ref().step_by(k) polled until None
+#   l len()    h size_hint()      c count()   L last()   f fold(..) collecting every item    (c/L/f by value: last op)
+IT_STEP = ["n", "N:0", "N:1", "N:2", "N:3", "s:0", "s:1", "s:2", "t:1", "t:2", "t:3", "l", "h"]
+IT_LAST = ["c", "L", "f"]
+IT_NAME = {"n": "next", "N": "nth", "s": "skip", "t": "step_by", "l": "len", "h": "size_hint", "c": "count", "L": "last", "f": "fold"}
+IT_ARGVS = [
+    [],                                                       # the kernel (>= 5.18) turns this into one empty argument
+    [b"p0"],
+    [b"p0", b"a1"],
+    [b"p0", b"a1", b""],
+    [b"p0", b"a1", b"", b"\xff\xfe"],
+    [b"p0", b"a1", b"", b"\xff\xfe", "é".encode()],
+    [b"p0", b"a1", b"", b"\xff\xfe", "é".encode(), b"a5"],
+]
+
+
+def it_items(argv, kind):
+    """how the probe prints the items of args_os() / args() over `argv`"""
+    return [hx(a) for a in argv] if kind == "os" else [("ok:" + hx(a)) if is_utf8(a) else "err" for a in argv]
+
+
+def spec_iter(items, ops):
+    """The property's own oracle: the answers std's contract demands of an iterator over exactly `items` (what a plain
+    slice iterator answers): every call is relative to the current position, nothing is yielded twice, len() /
+    size_hint() are the exact number of items not yet yielded.  Returns (answers, remaining-before-each-op)."""
+    pos, n, out, rems = 0, len(items), [], []
+
+    def opt(l):
+        return "S:" + l[0] if l else "None"
+    for op in ops:
+        t, _, k = op.partition(":")
+        k = int(k) if k else None
+        rem = items[pos:]
+        rems.append(len(rem))
+        if t == "n":
+            out.append("n=" + opt(rem[:1]))
+            pos = min(pos + 1, n)
+        elif t in ("N", "s"):
+            out.append(t + "=" + opt(rem[k:k + 1]))
+            pos = min(pos + k + 1, n)
+        elif t == "t":
+            out.append("t=[" + ",".join(rem[::k]) + "]")
+            pos = n
+        elif t == "l":
+            out.append("l=%d" % len(rem))
+        elif t == "h":
+            out.append("h=%d,%d" % (len(rem), len(rem)))
+        elif t == "c":
+            out.append("c=%d" % len(rem))
+            pos = n
+        elif t == "L":
+            out.append("L=" + opt(rem[-1:]))
+            pos = n
+        elif t == "f":
+            out.append("f=[" + ",".join(rem) + "]")
+            pos = n
+        else:
+            raise ValueError(op)
+    return out, rems
+
+
+def as_written(ops, want, argc):
+    """the two places where the code AS IT IS departs from that contract (known findings): len() = argc whatever has
+    been yielded, size_hint() = the default (0, None).  Used for the model-only stream."""
+    return [("l=%d" % argc) if op == "l" else "h=0,none" if op == "h" else w for op, w in zip(ops, want)]
+
+
+def judge_iter(items, ops, got):
+    """[(kind, why, index of the failing op)] of one script; stops at the first answer that changes the iterator's state"""
+    want, rems = spec_iter(items, ops)
+    bad = []
+    for i, (op, w) in enumerate(zip(ops, want)):
+        g = got[i] if i < len(got) else "<no answer>"
+        if g == w:
+            continue
+        t = op[0]
+        if t == "l" and g == "l=%d" % len(items):
+            bad.append(("len-is-argc-not-remaining", "len() = %s with %d of %d arguments left" % (g[2:], rems[i], len(items)), i))
+            continue
+        if t == "h" and g.startswith("h="):
+            lo, _, hi = g[2:].partition(",")
+            if lo.isdigit() and int(lo) <= rems[i] and (hi == "none" or (hi.isdigit() and rems[i] <= int(hi))):
+                bad.append(("size-hint-not-exact", "size_hint() = (%s) with exactly %d arguments left" % (g[2:], rems[i]), i))
+                continue
+        bad.append((IT_NAME[t] + "-wrong", "op #%d `%s` answered %s, the arguments passed demand %s" % (i + 1, op, g[:200], w[:200]), i))
+        break
+    else:
+        if len(got) > len(ops):
+            bad.append(("extra-answer", "answers after the last op: %r" % (got[len(ops):][:3],), len(ops)))
+    return bad
+
+
+def gen_scripts(r, argc, n_random, exhaustive):
+    scripts = []
+    if exhaustive:
+        heads = [[]] + [[a] for a in IT_STEP] + [[a, b] for a in IT_STEP for b in IT_STEP]
+        for h in heads:
+            for last in [None] + IT_LAST:
+                sc = h + ([last] if last else [])
+                if sc:
+                    scripts.append(sc)
+    big = [0, 1, 2, 3, 5, 7, argc, max(argc - 1, 0), argc + 1, 2**63, 2**64 - 1]
+    for _ in range(n_random):
+        sc = []
+        for _ in range(r.range(3, 9)):
+            t = r.choice(["n", "n", "n", "N", "N", "s", "s", "t", "l", "h"])
+            if t in ("N", "s"):
+                sc.append("%s:%d" % (t, r.choice(big)))
+            elif t == "t":
+                sc.append("t:%d" % max(1, r.choice(big)))
+            else:
+                sc.append(t)
+        if r.chance(1, 2):
+            sc.append(r.choice(IT_LAST))
+        scripts.append(sc)
+    return scripts
+
+
+def iter_mode(ctx, mode, release, quick, full):
+    """every method of `ArgsOs` / `Args` a program can call, in scripted orders, on fresh iterators (one exec per argv)"""
+    tag = mode + ("-release" if release else "-debug")
+    exe, err = build_probe(ctx, mode, release)
+    if exe is None:
+        return                                               # reported by run_mode
+    r = ctx.rng
+    lines, impl, origin = [], [], []
+    worst = {}                                                # (kind, iter) -> smallest failing (case, script, got, why)
+    argvs = IT_ARGVS if full else [IT_ARGVS[0], IT_ARGVS[3], IT_ARGVS[6]]
+    argvs = argvs + [[gen_string(r, r.choice([0, 1, 4, 5, 6])) for _ in range(r.range(2, 6))]]
+    for argv in argvs:
+        its = []
+        for kind in ("os", "args"):
+            for sc in gen_scripts(r, max(len(argv), 1), (120 if quick else 2000) if full else (40 if quick else 400),
+                                  exhaustive=full or len(argv) == 3):
+                its.append((kind, sc))
+        case = {"argv": argv, "env": [b"A=b"], "keys": [], "stack": True, "its": its}
+        rec = run_case(exe, case)
+        ctx.evaluations += 1 + len(its)
+        ctx.hist("runs", "iter-" + tag)
+        base = judge_run(case, rec, exe)
+        if base:
+            report(ctx, tag, case, rec, base, exe)
+            if any(b[1] == "crash" for b in base):
+                ctx.violation({"op": "iter", "kind": "crash", "mode": mode},
+                              {"mode": tag, "exe": exe, "argv": [hx(x) for x in argv], "scripts": len(its),
+                               "answered": len(rec.get("it", [])), "first_unanswered": " ".join(its[len(rec.get("it", []))][1]) if len(rec.get("it", [])) < len(its) else None,
+                               "why": "the probe died or hung while running iterator scripts"})
+            continue
+        img_argv = parse_image(int(rec["sp"][0]), C.unhex(rec["stack"][0]))[1]
+        got_all = rec.get("it", [])
+        lines.append("stack %s %s" % (rec["sp"][0], rec["stack"][0]))
+        impl.append(None)
+        origin.append((argv, None))
+        for i, (kind, sc) in enumerate(its):
+            got = got_all[i] if i < len(got_all) else []
+            items = it_items(img_argv, kind)
+            for b_kind, why, at in judge_iter(items, sc, got):
+                key = (b_kind, kind)
+                size = (at, len(sc), len(argv))
+                if key not in worst or size < worst[key][0]:
+                    worst[key] = (size, argv, sc, got, why, items)
+                ctx.hist("iter_spec_failures", "%s:%s:%s" % (tag, kind, b_kind))
+            lines.append("it %s %s" % (kind, " ".join(sc)))
+            impl.append(" ".join(["it"] + got))
+            origin.append((argv, (kind, sc)))
+            for op in sc:
+                ctx.hist("iter_ops", IT_NAME[op[0]])
+            ctx.count(("iter", kind, min(len(img_argv), 6), tuple(o[0] for o in sc[:2]), sc[-1][0] if sc[-1] in IT_LAST else "-"))
+    for (b_kind, kind), (_, argv, sc, got, why, items) in sorted(worst.items()):
+        want = spec_iter(items, sc)[0]
+        ctx.violation({"op": "iter", "kind": b_kind, "iter": kind, "mode": mode},
+                      {"mode": tag, "exe": exe, "argv": [hx(x) for x in argv], "env": [hx(b"A=b")], "keys": [],
+                       "iterator": "args_os()" if kind == "os" else "args()", "script": sc,
+                       "implementation": got, "arguments_demand": want, "why": why,
+                       "how_to_replay": "python3 %s --replay <this file>   # or: echo 'it %s %s' | %s <argv>" % (
+                           os.path.abspath(__file__), kind, " ".join(sc), exe)})
+    if not release and mode == "dyn":
+        ctx.sample({"mode": tag, "iterator_script": "it os n N:1 l c", "argv": [hx(a) for a in IT_ARGVS[4]],
+                    "demanded": spec_iter(it_items(IT_ARGVS[4], "os"), ["n", "N:1", "l", "c"])[0]})
+
+    def replay_of(i):
+        argv, it = origin[i]
+        return {"mode": tag, "exe": exe, "argv": [hx(x) for x in argv], "env": [hx(b"A=b")], "keys": [],
+                "script": it[1] if it else None, "iter": it[0] if it else None}
+    model_compare(ctx, "iter-" + tag, lines, impl, replay_of)
+
+
+def model_iter_stream(ctx, quick):
+    """no probe: the Lean iterator model on spec-side images (argc 0 included, which execve cannot produce on this kernel)
+    against the oracle, with the two known departures of the code as written substituted (as_written)"""
+    r = ctx.rng
+    lines, exp = [], []
+    for argc in range(0, 7):
+        argv = IT_ARGVS[6][:argc]
+        lines.append("build 4096 a %s e x" % " ".join(hx(a) for a in argv))
+        exp.append(None)
+        for kind in ("os", "args"):
+            for sc in gen_scripts(r, argc, 60 if quick else 1500, exhaustive=argc in (0, 2, 4)):
+                lines.append("it %s %s" % (kind, " ".join(sc)))
+                exp.append(" ".join(["it"] + as_written(sc, spec_iter(it_items(argv, kind), sc)[0], argc)))
+    model_compare(ctx, "model-iter-vs-spec", lines, exp, lambda i: {"line": lines[i][:300]})
+
+
 # ------------------------------------------------------------------ the check
 
 def report(ctx, mode, case, rec, bad, exe):
@@ -614,8 +838,11 @@ def model_streams(ctx, quick):
     # the pre-fix bodies keep exhibiting the defect (the witness proved in Props/C07 by `decide`)
     model_compare(ctx, "legacy-witness", ["env 484f4d453d78", "legacy-var 484f4d4552", "legacy-varu 484f4d4552", "var 484f4d4552", "varu 484f4d4552"],
                   ["ok", "ok 78", "ok 78", "missing", "missing"], lambda i: {})
-    model_compare(ctx, "malformed", ["", "stack", "stack 12 zz", "var", "var 4", "env 4", "reloc 1 2", "build x", "nop 1", "utf8 1 2"],
-                  ["bad-op"] * 10, lambda i: {})
+    model_compare(ctx, "malformed", ["", "stack", "stack 12 zz", "var", "var 4", "env 4", "reloc 1 2", "build x", "nop 1", "utf8 1 2",
+                                     "it os n", "build 4096 a 61 e x", "it os", "it xx n", "it os q", "it os N", "it os N:x", "it os t:0",
+                                     "it os c n", "it args L l", "it os N:18446744073709551616", "it os n:1"],
+                  ["bad-op"] * 11 + [None] + ["bad-op"] * 10, lambda i: {})
+    model_iter_stream(ctx, quick)
 
 
 # ------------------------------------------------------------------ in-process stream (harness/c07: include!d aux.rs / dynlink.rs)
@@ -756,15 +983,18 @@ def run(ctx):
     for mode in MODES:
         run_mode(ctx, mode, False, cases, quick)
         reloc_and_clock(ctx, mode, False, quick)
+        iter_mode(ctx, mode, False, quick, full=(mode == "dyn"))
     rel_cases = cases[:4] + cases[4::4][: (12 if quick else 300)]
     for mode in MODES:
         run_mode(ctx, mode, True, rel_cases, quick)
         reloc_and_clock(ctx, mode, True, quick)
+        iter_mode(ctx, mode, True, quick, full=(mode == "static" or not quick))
     # the start-up without aux values (features start + symbols only): its own `resolve`, judged against what was passed
     # (static PIE is excluded: `resolve` without aux "does not relocate symbols. Do not use if symbol relocation is wanted or
     #  required, such as when compiling a static-pie-linked" binary - start.rs; a static PIE without relocation crashes by design)
     for mode in (["static+noaux"] if quick else [m + "+noaux" for m in MODES if m != "spie"]):
         run_mode(ctx, mode, False, rel_cases if quick else cases, quick)
+        iter_mode(ctx, mode, False, quick, full=False)
         if not quick:
             run_mode(ctx, mode, True, rel_cases, quick)
     # the release link without the probe's own strlen: recorded as an observation (DESIGN §4 #22)
@@ -787,10 +1017,18 @@ def replay(ctx, rp):
         print(err)
         return 2
     case = {"argv": [C.unhex(x) for x in r["argv"]], "env": [C.unhex(x) for x in r["env"]], "keys": [C.unhex(x) for x in r["keys"]]}
+    if r.get("script"):
+        kind = r.get("iter") or ("args" if r.get("iterator") == "args()" else "os")
+        case["its"] = [(kind, r["script"])]
     rec = run_case(exe, case)
     for l in rec["lines"]:
         print(l[:300])
     bad = judge_run(case, rec, exe)
+    if case.get("its") and not bad:
+        kind, sc = case["its"][0]
+        items = it_items(parse_image(int(rec["sp"][0]), C.unhex(rec["stack"][0]))[1], kind)
+        print("arguments demand: it " + " ".join(spec_iter(items, sc)[0]))
+        bad = judge_iter(items, sc, (rec.get("it") or [[]])[0])
     for b in bad:
         print("FAILS:", b)
     return 1 if bad else 0
